@@ -252,6 +252,9 @@ type mut struct {
 
 func (h *hist) genBatch() []mut {
 	n := 1 + h.rng.Intn(12)
+	if h.rng.Intn(5) == 0 {
+		n = 13 + h.rng.Intn(40) // large batches too (some implementations reorganise them)
+	}
 	var ms []mut
 	for i := 0; i < n; i++ {
 		var k ukey
